@@ -13,11 +13,13 @@ import (
 	"crypto/elliptic"
 	"crypto/rand"
 	"crypto/x509"
+	"crypto/x509/pkix"
 	"encoding/hex"
 	"encoding/json"
 	"encoding/pem"
 	"fmt"
 	"io"
+	"math/big"
 	"net/http"
 	"net/http/httptest"
 	"net/url"
@@ -784,12 +786,13 @@ type c11Jwks struct {
 	mu    sync.Mutex
 	calls int
 	keys  map[string]*ecdsa.PrivateKey // issuer -> key
+	certs map[string]*x509.Certificate // issuer -> self-signed certificate no trust store knows (only for isc)
 }
 
 var c11Issuers = []string{"isa", "isb", "isc"} //nolint:gochecknoglobals
 
 func c11NewJwks() *c11Jwks {
-	j := &c11Jwks{keys: map[string]*ecdsa.PrivateKey{}}
+	j := &c11Jwks{keys: map[string]*ecdsa.PrivateKey{}, certs: map[string]*x509.Certificate{}}
 
 	for _, iss := range c11Issuers {
 		k, err := ecdsa.GenerateKey(elliptic.P256(), rand.Reader)
@@ -798,6 +801,20 @@ func c11NewJwks() *c11Jwks {
 		}
 
 		j.keys[iss] = k
+	}
+
+	// the keys of issuer isc come with a certificate chain that does not validate (unknown authority)
+	tpl := &x509.Certificate{SerialNumber: big.NewInt(1), Subject: pkix.Name{CommonName: "isc"},
+		NotBefore: time.Now().Add(-48 * time.Hour), NotAfter: time.Now().Add(240 * time.Hour),
+		KeyUsage: x509.KeyUsageDigitalSignature, BasicConstraintsValid: true, IsCA: true}
+
+	der, err := x509.CreateCertificate(rand.Reader, tpl, tpl, &j.keys["isc"].PublicKey, j.keys["isc"])
+	if err != nil {
+		panic(err)
+	}
+
+	if j.certs["isc"], err = x509.ParseCertificate(der); err != nil {
+		panic(err)
 	}
 
 	j.srv = httptest.NewServer(http.HandlerFunc(func(w http.ResponseWriter, r *http.Request) {
@@ -813,9 +830,15 @@ func c11NewJwks() *c11Jwks {
 		}
 
 		iss := parts[1]
+
+		var chain []*x509.Certificate
+		if c := j.certs[iss]; c != nil {
+			chain = []*x509.Certificate{c}
+		}
+
 		set := jose.JSONWebKeySet{Keys: []jose.JSONWebKey{
-			{Key: &j.keys[iss].PublicKey, KeyID: "k1", Algorithm: "ES256", Use: "sig"},
-			{Key: &j.keys[iss].PublicKey, KeyID: "k-" + iss, Algorithm: "ES256", Use: "sig"},
+			{Key: &j.keys[iss].PublicKey, KeyID: "k1", Algorithm: "ES256", Use: "sig", Certificates: chain},
+			{Key: &j.keys[iss].PublicKey, KeyID: "k-" + iss, Algorithm: "ES256", Use: "sig", Certificates: chain},
 		}}
 
 		w.Header().Set("Content-Type", "application/json")
@@ -840,7 +863,7 @@ type c11JTok struct {
 }
 
 type c11JKStep struct {
-	Inst int     `json:"inst"` // 0 prototype, 1 rule-level instance (cache_ttl override)
+	Inst int     `json:"inst"` // 0 prototype, 1 rule-level instance (cache_ttl override), 2 sibling prototype with validate_jwk: false
 	Tok  c11JTok `json:"tok"`
 	Rel  string  `json:"rel"`
 }
@@ -848,6 +871,7 @@ type c11JKStep struct {
 type c11JKCase struct {
 	Proto c11JKConf   `json:"proto"`
 	Over  *int64      `json:"over,omitempty"` // rule-level cache_ttl
+	Lax   bool        `json:"lax"`            // a second prototype on the same endpoint with validate_jwk: false
 	Steps []c11JKStep `json:"steps"`
 }
 
@@ -934,8 +958,13 @@ func (j *c11Jwks) runJK(c *c11JKCase) (c11JKObs, *c11Sha) {
 		conf["cache_ttl"] = c11Dur(*c.Proto.TTL)
 	}
 
+	laxConf := config.MechanismConfig{"validate_jwk": false}
+	for k, v := range conf {
+		laxConf[k] = v
+	}
+
 	mf, err := NewMechanismFactory(&config.Configuration{Prototypes: &config.MechanismPrototypes{
-		Authenticators: []config.Mechanism{{ID: "jw", Type: "jwt", Config: conf}},
+		Authenticators: []config.Mechanism{{ID: "jw", Type: "jwt", Config: conf}, {ID: "jwlax", Type: "jwt", Config: laxConf}},
 	}}, zerolog.Nop(), nil, nil, nil)
 	if err != nil {
 		return c11JKObs{Status: "config_rejected", Detail: err.Error()}, tab
@@ -946,8 +975,13 @@ func (j *c11Jwks) runJK(c *c11JKCase) (c11JKObs, *c11Sha) {
 		return c11JKObs{Status: "config_rejected", Detail: err.Error()}, tab
 	}
 
-	insts := []authenticators.Authenticator{proto, proto}
-	effs := []c11JKConf{c.Proto, c.Proto}
+	lax, err := mf.CreateAuthenticator("", "jwlax", nil)
+	if err != nil {
+		return c11JKObs{Status: "config_rejected", Detail: err.Error()}, tab
+	}
+
+	insts := []authenticators.Authenticator{proto, proto, lax}
+	effs := []c11JKConf{c.Proto, c.Proto, c.Proto}
 
 	if c.Over != nil {
 		in, err := mf.CreateAuthenticator("", "jw", config.MechanismConfig{"cache_ttl": c11Dur(*c.Over)})
@@ -1030,7 +1064,7 @@ func c11CoqJKOut(s string) string {
 
 func (j *c11Jwks) coqJK(c c11JKCase, o c11JKObs, tab *c11Sha) string {
 	if o.Status != "ok" {
-		return "(JK [] [] [((jkc (JLit \"rejected\") [] None, jtk2 \"\" \"\" \"\" \"\"), ob2 (Some \"rejected\") false 0 OErr OErr)])"
+		return "(JK [] [] [((jkc (JLit \"rejected\") [] None true, jtk2 \"\" \"\" \"\" \"\"), ob2 (Some \"rejected\") false 0 OErr OErr)])"
 	}
 
 	// what the JWKS server publishes at the URLs the steps can reach
@@ -1059,8 +1093,9 @@ func (j *c11Jwks) coqJK(c c11JKCase, o c11JKObs, tab *c11Sha) string {
 	var world []string
 	for _, u := range names {
 		ow := urls[u]
+		trusted := vf.CoqBool(j.certs[ow] == nil)
 		world = append(world, vf.CoqPair(vf.CoqStr(u), vf.CoqList([]string{
-			vf.CoqPair(vf.CoqStr("k1"), vf.CoqStr(ow)), vf.CoqPair(vf.CoqStr("k-"+ow), vf.CoqStr(ow))})))
+			vf.CoqPair(vf.CoqStr("k1"), vf.CoqPair(vf.CoqStr(ow), trusted)), vf.CoqPair(vf.CoqStr("k-"+ow), vf.CoqPair(vf.CoqStr(ow), trusted))})))
 	}
 
 	pre, suf, text := j.urlText(c.Proto)
@@ -1083,7 +1118,7 @@ func (j *c11Jwks) coqJK(c c11JKCase, o c11JKObs, tab *c11Sha) string {
 			ttl = "(Some " + vf.CoqZ(*e.TTL) + ")"
 		}
 
-		cfg := vf.CoqApp("jkc", url, vf.CoqListOf(e.effHeaders(), c11CoqKV), ttl)
+		cfg := vf.CoqApp("jkc", url, vf.CoqListOf(e.effHeaders(), c11CoqKV), ttl, vf.CoqBool(st.Inst != 2))
 		tok := vf.CoqApp("jtk2", vf.CoqStr(st.Tok.Iss), vf.CoqStr(st.Tok.Kid), vf.CoqStr(st.Tok.Signer), vf.CoqStr(st.Tok.Sub))
 		so := o.Steps[i]
 		steps = append(steps, vf.CoqPair(vf.CoqPair(cfg, tok), vf.CoqApp("ob2", c11OptKey(so.Key), vf.CoqBool(so.Hit), vf.CoqNat(so.Calls),
@@ -1112,6 +1147,8 @@ func c11GenJK(r *vf.Rand) c11JKCase {
 		c.Over = vf.Pick(r, []*int64{c11TTL(10 * time.Minute), c11TTL(0)})
 	}
 
+	c.Lax = r.Chance(40)
+
 	iss := vf.Pick(r, c11Issuers)
 	base := c11JTok{Iss: iss, Kid: vf.Pick(r, []string{"k1", "k1", "k-" + iss}), Signer: iss, Sub: vf.Pick(r, c11SubIDs)}
 
@@ -1129,8 +1166,16 @@ func c11GenJK(r *vf.Rand) c11JKCase {
 		switch x := r.Intn(100); {
 		case x < 28:
 			from.Rel = "same"
-		case x < 38 && c.Over != nil:
+		case x < 38 && c.Over != nil && from.Inst != 2:
 			from.Inst, from.Rel = 1-from.Inst, "other-instance"
+		case x < 50 && c.Lax:
+			if from.Inst == 2 {
+				from.Inst = 0
+			} else {
+				from.Inst = 2
+			}
+
+			from.Rel = "other-instance:validate_jwk"
 		case x < 58:
 			// a token that CLAIMS another issuer but is signed by the same key (forged issuer)
 			from.Tok.Iss, from.Rel = c11Other(r, append(c11Issuers, "isz"), from.Tok.Iss), "diff:iss-claim"
@@ -1155,7 +1200,16 @@ func c11GenJK(r *vf.Rand) c11JKCase {
 func c11JKCorpus() []c11JKCase {
 	tok := func(iss, signer string) c11JTok { return c11JTok{Iss: iss, Kid: "k1", Signer: signer, Sub: "alice"} }
 
+	cert := func(signer string) c11JTok { return c11JTok{Iss: "isc", Kid: "k1", Signer: signer, Sub: "alice"} }
+
 	return []c11JKCase{
+		// C11-F11 (= C05-F4): the JWK of issuer isc has a certificate that does not validate; cached through the
+		// authenticator with validate_jwk: false it is used by the validating one on the same JWKS endpoint
+		{Proto: c11JKConf{Templated: true}, Lax: true,
+			Steps: []c11JKStep{{Inst: 2, Tok: cert("isc"), Rel: "first"}, {Inst: 0, Tok: cert("isc"), Rel: "other-instance:validate_jwk"}}},
+		// no finding: the validating authenticator first (nothing cached), then the lax one
+		{Proto: c11JKConf{Templated: true}, Lax: true,
+			Steps: []c11JKStep{{Inst: 0, Tok: cert("isc"), Rel: "first"}, {Inst: 2, Tok: cert("isc"), Rel: "other-instance:validate_jwk"}, {Inst: 2, Tok: cert("isa"), Rel: "diff:signer"}}},
 		// two issuers share the key id k1; a token claiming isb but signed with isa's key must not be verified with
 		// isa's cached key (the rendered JWKS url is part of the key)
 		{Proto: c11JKConf{Templated: true}, Steps: []c11JKStep{{Tok: tok("isa", "isa"), Rel: "first"}, {Tok: tok("isb", "isa"), Rel: "diff:iss-claim"},
